@@ -2,6 +2,7 @@
 C16 — Decorators are transparent except for what they are meant to change.
 -/
 import CobaldVerif.Model.Decorators
+import CobaldVerif.Generated.SrcDecorators
 
 namespace Cobald.Props.C16
 open Cobald Cobald.ERat Cobald.Decorators
@@ -162,5 +163,22 @@ example : (setDemand exStack (fin 7)).2.map (·.logger) = [2, 1] := by decide +k
 def exKnown : List (List Char) := ["value".toList, "demand".toList, "target".toList]
 example : templateOK exKnown "d = %(value)s [%(demand).2f] %%".toList = true := by decide +kernel
 example : templateOK exKnown "d = %(valu)s".toList = false := by decide +kernel
+
+/-! ### the decorators as written in the source (`Generated/SrcDecorators.lean`)
+
+The translator re-reads `_proxy.py`, `logger.py` and `buffer.py` on every run: the four proxy
+properties of `PoolDecorator` read the target's attribute of the same name and its demand setter
+is the single write `self.target.demand = value` (the `plain` case of the model); `Logger`'s
+setter is one `log(level, message, fields)` call followed by that same write, and the fields are
+the written value and the target's state read at that point - before the write (the `logger` case);
+`Buffer` stores written demands in a plain attribute and `run` forwards it when it differs (the
+`buffer` case, with C09's model of `run`). -/
+
+theorem gen_decorator_shapes :
+    Gen.Decorators.proxyShape = true ∧ Gen.Decorators.bufferShape = true ∧
+    Gen.Decorators.loggerFields =
+      [("value", "value"), ("demand", "self.target.demand"), ("supply", "self.target.supply"),
+       ("utilisation", "self.target.utilisation"), ("allocation", "self.target.allocation"),
+       ("consumption", "self.target.allocation"), ("target", "self.target")] := ⟨rfl, rfl, rfl⟩
 
 end Cobald.Props.C16
